@@ -513,6 +513,12 @@ def num_euler_items(ctx):
         for sg in (1, -1):
             for _ in range(2 if q else 40):
                 rt.append(("pole%g" % d, rng.uniform(-pi, pi), sg * (pi / 2 - d * rng.uniform(1.0, 1.3)), rng.uniform(-pi, pi)))
+    # right above the documented band: 1 - |sin pitch| in (1.3, 1.9) eps_gimbal (the statement's condition is
+    # |sin pitch| < 1 - eps; 25% of margin for the rounding of sin pitch itself)
+    for sg in (1, -1):
+        for _ in range(4 if q else 60):
+            gap = GIMBAL_EPS * rng.uniform(1.3, 1.9)
+            rt.append(("band_edge", rng.uniform(-pi, pi), sg * math.asin(1 - gap), rng.uniform(-pi, pi)))
     for k in (2, 5, 9, 12):
         for sr, sy in ((1, 1), (1, -1), (-1, 1), (-1, -1)):
             rt.append(("edge1e-%d" % k, sr * (pi - 10.0 ** -k), rng.uniform(-1.2, 1.2), sy * (pi - 10.0 ** -k)))
@@ -610,7 +616,7 @@ def ev_nert(items):
             x, y, z, w = qx
             t2 = 2 * (w * y - z * x) / (x * x + y * y + z * z + w * w)
             gap = 1 - abs(t2)
-            g = 9 if gap < 2 * band else (0 if gap >= mp.mpf("0.1") else 1 if gap >= mp.mpf("0.01")
+            g = 9 if gap < mp.mpf("1.25") * band else (0 if gap >= mp.mpf("0.1") else 1 if gap >= mp.mpf("0.01")
                                           else 2 if gap >= mp.mpf("0.001") else 3 if gap >= 2 * mp.mpf(GIMBAL_EPS) else 4)
             ev = {"op": "nert", "ty": ty, "dt": dt, "cell": it["cell"], "g": g, "finite": False, "rot": CAP, "rng": CAP}
             if ok:
@@ -781,8 +787,9 @@ def events_of(ctx, items):
             out[i] = ev_mixed(it)
     for kind, f in (("ne2", ev_ne2), ("nert", ev_nert)):
         sel = [i for i, it in enumerate(items) if it["kind"] == kind]
-        for i, (it, ev) in zip(sel, f([items[i] for i in sel])):
-            out[i] = ev
+        where = {id(items[i]): i for i in sel}
+        for it, ev in f([items[i] for i in sel]):       # (returned grouped by type / dtype, not in item order)
+            out[where[id(it)]] = ev
     if any(o is None for o in out):
         raise MachineryError("item without event")
     return out
